@@ -37,9 +37,17 @@ def run_stateful(out, prop, tier, rng, work, files, gen, oracle, n_quick, n_thor
         do(sc, 'corpus/' + name)
     for k in range(n):
         do(gen(rng, k), 'gen-%d' % k)
+        if any(v.get('kind') == 'handler-did-not-return' for v, _, _ in viol):
+            break           # decisive, and every further scenario that hits the same loop costs wall-clock time
     if correspond:
-        cr = runs if corr_max is None else runs[:corr_max]
+        # scenarios with injected transmit errors are outside the model (its Emit never fails): oracle only
+        keep = [i for i, (sc, res) in enumerate(runs) if not (sc.get('tx_errors') or sc.get('oracle_only'))]
+        if corr_max is not None:
+            keep = keep[:corr_max]
+        cr = [runs[i] for i in keep]
+        names = [names[i] for i in keep]
         ntr, mism, errors = corr21.correspond(work, cr, tag=prop.lower())
+        out.extra['traces_oracle_only'] = corr21.SKIPPED[0] + (len(runs) - len(keep) if corr_max is None else 0)
         out.traces_validated = ntr
         for e in errors:
             out.broken.append('correspondence %s did not evaluate: %s' % (e[0], e[1][-300:].replace('\n', ' ')))
